@@ -345,7 +345,11 @@ impl Rebuildable for Declaration
 			Declaration::Import {
 				filename,
 				location: _,
-			} => Ok(format!("{}import \"{}\";\n", indentation, filename)),
+			} => Ok(format!(
+				"{}import \"{}\";\n",
+				indentation,
+				filename.escape_default()
+			)),
 			Declaration::Poison(poison) => poison.rebuild(indentation),
 		}
 	}
